@@ -332,6 +332,39 @@ def facts_lazygen(repo, lean):
 
 
 
+def facts_seqgen(repo, lean):
+    """Tie A for the EAGER Seq functions: harness/cmd/seq2lean TRANSLATES seq/seq_op.go and the fp.Seq methods / package
+    functions of seq.go of the working tree into Lean definitions over GoM (FpVerif/Gen/SeqGen.lean, not under version
+    control; semantics of the Go fragment: Model/GoSemM.lean).  The committed theorems of Spec/C12SeqGen state, per function,
+    that the translated definition equals the structural list recursion / the Lean list function that the C12 / C01 / C11
+    theorems use as the eager reference; Spec/SeqGenCover that the exported functions of the two files are exactly
+    translated + listed exceptions.  Functions outside the fragment are NOT an error here (the exception list lives in
+    Spec/SeqGenCover.lean and is checked there by `decide`)."""
+    out = os.path.join(lean, 'FpVerif', 'Gen', 'SeqGen.lean')
+    os.makedirs(os.path.dirname(out), exist_ok=True)
+    harness = os.path.join(os.path.dirname(lean), 'harness')
+    env = dict(os.environ, GOFLAGS='-mod=mod', GOPROXY='off', GOSUMDB='off', GOTOOLCHAIN='local')
+    tmp_out = out + '.new.%d' % os.getpid()
+    p = subprocess.run(['go', 'run', './cmd/seq2lean', repo, tmp_out], cwd=harness, env=env, stdout=subprocess.PIPE,
+                       stderr=subprocess.STDOUT, text=True)
+    if p.returncode != 0 or not os.path.exists(tmp_out):
+        if os.path.exists(out):
+            os.remove(out)
+        return dict(error='seq2lean failed: ' + p.stdout[-800:], obligations=1)
+    # keep the old file (and its build products) when the translation did not change
+    if not os.path.exists(out) or open(out).read() != open(tmp_out).read():
+        os.replace(tmp_out, out)
+    else:
+        os.remove(tmp_out)
+    info = json.loads(p.stdout.strip().split('\n')[-1])
+    res = dict(seq_found=len(info['found']), seq_translated=len(info['translated']),
+               seq_untranslated=sorted(info['untranslated']), obligations=1, generated='FpVerif/Gen/SeqGen.lean')
+    if info.get('parse_errors'):
+        res['error'] = 'seq2lean: parse errors: ' + json.dumps(info['parse_errors'])[:800]
+    return res
+
+
+
 import re as _re
 
 def project_future(line):
@@ -388,8 +421,8 @@ ARITY_H = H('arity', 'oracle_arity', 8000, 400000, spec_level=True, nontrivial=l
 
 CHECKS = {
     'C01': dict(
-        spec=['FpVerif.Spec.C01', 'FpVerif.Spec.C01Inst', 'FpVerif.Spec.C01T', 'FpVerif.Spec.C01TExt', 'FpVerif.Spec.C01Coll', 'FpVerif.Spec.C16', 'FpVerif.Spec.C01Fn', 'FpVerif.Spec.C17', 'FpVerif.Spec.C01Gen', 'FpVerif.Spec.C01CoreGen', 'FpVerif.Spec.C16Gen'],
-        facts=facts_all(facts_monadgen, facts_coregen, facts_lazygen),
+        spec=['FpVerif.Spec.C01', 'FpVerif.Spec.C01Inst', 'FpVerif.Spec.C01T', 'FpVerif.Spec.C01TExt', 'FpVerif.Spec.C01Coll', 'FpVerif.Spec.C16', 'FpVerif.Spec.C01Fn', 'FpVerif.Spec.C17', 'FpVerif.Spec.C01Gen', 'FpVerif.Spec.C01CoreGen', 'FpVerif.Spec.C16Gen', 'FpVerif.Spec.C12SeqGen', 'FpVerif.Spec.SeqGenCover'],
+        facts=facts_all(facts_monadgen, facts_coregen, facts_lazygen, facts_seqgen),
         harnesses=MONAD_H + [TRYOPT_H, ARITY_H, H('iter', 'oracle_iter', 4000, 400000, spec_level=True, project=project_iter, extra=dict(quick=['-prop', 'C12'], thorough=['-prop', 'C12'])),
                              H('eval', 'oracle_eval', 2000, 100000, spec_level=True, extra=dict(quick=['-deep', '20000'], thorough=['-deep', '200000'])),
                              # the function monads fn0 / fn1 (reader monad over the effect monad)
@@ -430,7 +463,7 @@ CHECKS = {
         assumptions=['panic values are compared by their canonical rendering', 'debug.Stack() content of try.panicError is not modelled'],
     ),
     'C03': dict(
-        spec=['FpVerif.Spec.C03'],
+        spec=['FpVerif.Spec.C03', 'FpVerif.Spec.C03All'],
         harnesses=[H('hamt', 'oracle_hamt', 40000, 4000000)],
         level='proof',
         modelled='immutable/map.go (all node kinds, set/delete/get, mergeIntoNode, explicit-stack iterator, builders incl. the in-place path), '
@@ -515,7 +548,7 @@ CHECKS = {
     ),
     'C06': dict(
         facts=facts_all(facts_atom),
-        spec=['FpVerif.Spec.C06Facts', 'FpVerif.Spec.C05Facts', 'FpVerif.Spec.C06', 'FpVerif.Spec.C06Sound', 'FpVerif.Spec.C06Live', 'FpVerif.Spec.C06Chain', 'FpVerif.Spec.C06Drain', 'FpVerif.Spec.C06Once', 'FpVerif.Spec.C06HO', 'FpVerif.Spec.C14MiscFut',
+        spec=['FpVerif.Spec.C06Facts', 'FpVerif.Spec.C05Facts', 'FpVerif.Spec.C06Methods', 'FpVerif.Spec.C06', 'FpVerif.Spec.C06Sound', 'FpVerif.Spec.C06Live', 'FpVerif.Spec.C06Chain', 'FpVerif.Spec.C06Drain', 'FpVerif.Spec.C06Once', 'FpVerif.Spec.C06HO', 'FpVerif.Spec.C14MiscFut',
               # the task-atomic model ASSUMES that a promise is an atomic single-assignment cell with exactly-once delivery at the level of the
               # individual atomic steps; that reduction is C05, so its theorems and its atomic-step harness are part of this check too
               # (seeds C06-2 / C06-6: a completion that gives up after a lost CAS leaves the derived future pending for ever)
@@ -544,7 +577,8 @@ CHECKS = {
                      'user callbacks do not panic inside tasks (a panic in a callback goroutine terminates the program; only Apply/Apply2 recover)'],
     ),
     'C12': dict(
-        spec=['FpVerif.Spec.C12', 'FpVerif.Spec.C12List', 'FpVerif.Spec.C12Ext', 'FpVerif.Spec.C01Coll'],
+        spec=['FpVerif.Spec.C12', 'FpVerif.Spec.C12List', 'FpVerif.Spec.C12Ext', 'FpVerif.Spec.C01Coll', 'FpVerif.Spec.C12SeqGen', 'FpVerif.Spec.SeqGenCover'],
+        facts=facts_all(facts_seqgen),
         harnesses=[H('iter', 'oracle_iter', 8000, 800000, spec_level=True, project=project_iter,
                      extra={'quick': ['-prop', 'C12'], 'thorough': ['-prop', 'C12']}),
                    # conversion / access functions of fp.Seq, lazy fp.List, xtr; thin iterator wrappers (direct)
@@ -621,7 +655,7 @@ CHECKS = {
                      'most one element (single use / pull order of iterators: C12, C20)'],
     ),
     'C16': dict(
-        spec=['FpVerif.Spec.C16', 'FpVerif.Spec.C16Stack', 'FpVerif.Spec.C16Facts', 'FpVerif.Spec.C01Fn', 'FpVerif.Spec.C16Panic', 'FpVerif.Spec.C16PanicEval', 'FpVerif.Spec.C16AtomFacts', 'FpVerif.Spec.C16Gen'],
+        spec=['FpVerif.Spec.C16', 'FpVerif.Spec.C16Stack', 'FpVerif.Spec.C16Facts', 'FpVerif.Spec.C01Fn', 'FpVerif.Spec.C16Panic', 'FpVerif.Spec.C16PanicEval', 'FpVerif.Spec.C16AtomFacts', 'FpVerif.Spec.C16Gen', 'FpVerif.Spec.C16Logged'],
         facts=facts_all(facts_factx, facts_atom, facts_lazygen),
         harnesses=[H('eval', 'oracle_eval', 4000, 200000, spec_level=True,
                      extra=dict(quick=['-deep', '2000000'], thorough=['-deep', '20000000'])),
@@ -708,8 +742,8 @@ CHECKS_TC = {
                      '(note:seq.Sort-mutated-its-input(C04)), a failure only with the harness flag -c04'],
     ),
     'C11': dict(
-        spec=['FpVerif.Spec.C11', 'FpVerif.Spec.C14Misc', 'FpVerif.Spec.C14Gen', 'FpVerif.Spec.C11Gen', 'FpVerif.Spec.TCGenCover'],
-        facts=facts_all(facts_tuplegen, facts_tcgen),
+        spec=['FpVerif.Spec.C11', 'FpVerif.Spec.C14Misc', 'FpVerif.Spec.C14Gen', 'FpVerif.Spec.C11Gen', 'FpVerif.Spec.TCGenCover', 'FpVerif.Spec.C12SeqGen', 'FpVerif.Spec.SeqGenCover'],
+        facts=facts_all(facts_tuplegen, facts_tcgen, facts_seqgen),
         harnesses=[H('tc', 'oracle_tc', 3000, 300000, extra=_only('mon,sg')),
                    # monoid adapters SemigroupFunc.Empty/Curried, EmptyFunc.Empty, monoid.ToMonoid/Curried (toMonoid_lawful_iff ...)
                    H('misc', 'oracle_misc', 3000, 300000, spec_level=True)],
@@ -873,5 +907,14 @@ for _pid in ('C05', 'C06', 'C19', 'C16'):
     CHECKS[_pid]['modelled'] = CHECKS[_pid].get('modelled', '') + _TIE_C_ATOM
     CHECKS[_pid]['technique'] = ('Lean 4 proof over hand-written executable step-machine model + regenerated atomic-step facts decided by the kernel '
                                  '(Tie C) + differential correspondence check at yield-hook granularity')
+_TIE_A_SEQ = (' Session 6, Tie A: harness/cmd/seq2lean TRANSLATES 57 of the 75 exported functions / methods of seq.go and seq/seq_op.go of the working tree (18 listed '
+              'exceptions: iterators, Go maps, HAMT builders, sort.Sort, futures, MakeString, FilterNil) into FpVerif/Gen/SeqGen.lean over a committed GoM semantics of the Go '
+              'fragment (Model/GoSemM.lean: one loop schema, index reads / writes that throw where Go panics); Spec/C12SeqGen (88 theorems): each translated function equals the '
+              'list function the C12 / C01 / C11 theorems use as the EAGER REFERENCE, for all lists and all (logging, panicking) callbacks; 5 end-to-end corollaries relate the '
+              'iterator machines to the translated eager code; Spec/SeqGenCover (6): exported = translated + exceptions. Values only (aliasing stays with Model/SliceHeap).')
+for _pid in ('C12', 'C01', 'C11'):
+    CHECKS[_pid]['modelled'] = CHECKS[_pid].get('modelled', '') + _TIE_A_SEQ
+CHECKS['C12']['technique'] = ('Lean 4 proof over hand-written executable iterator / lazy-list machines + regenerated Go->Lean translation of the eager Seq reference '
+                              'functions proved equal to the list functions of the theorems (Tie A) + differential correspondence check')
 CHECKS['C16']['technique'] = ('Lean 4 proof over hand-written executable model + regenerated Go->Lean translation of lazy/lazy.go proved equal to the model (Tie A) '
                               '+ regenerated atomic-step / memoisation facts decided by the kernel (Tie C) + differential correspondence check')
